@@ -265,6 +265,7 @@ bool synthInitial(const json& spec, NifFile& nif, Ctx& ctx, std::string* fileByt
 	// wiring: child refs point forward (no cycles), pointers point backward, types fit
 	std::vector<std::string> cls(blocks.size());
 	for (size_t b = 0; b < blocks.size(); b++) cls[b] = classOfBlockType(blocks[b].type);
+	std::set<uint32_t> usedGeomData;
 	for (size_t b = 1; b < blocks.size(); b++) {
 		std::set<NiRef*> childSet, ptrSet;
 		blocks[b].obj->GetChildRefs(childSet);
@@ -274,12 +275,20 @@ bool synthInitial(const json& spec, NifFile& nif, Ctx& ctx, std::string* fileByt
 			std::vector<uint32_t> cands;
 			if (isPtr) { for (size_t j = 0; j < b; j++) if (classDerivesFrom(cls[j], rf.second)) cands.push_back(uint32_t(j)); }
 			else { for (size_t j = b + 1; j < blocks.size(); j++) if (classDerivesFrom(cls[j], rf.second)) cands.push_back(uint32_t(j)); }
+			// a geometry-data block belongs to one shape (shapes cache a raw pointer to it; sharing one data block between
+			// shapes makes DeleteShape of one dangle the other - real, but outside all properties)
+			if (!isPtr && classDerivesFrom(rf.second, "NiGeometryData")) {
+				std::vector<uint32_t> freeC;
+				for (auto c : cands) if (!usedGeomData.count(c)) freeC.push_back(c);
+				cands = freeC;
+			}
 			uint32_t v = 0xFFFFFFFFu;
 			if (!cands.empty() && r.chance(0.8)) v = cands[r.below(uint32_t(cands.size()))];
+			if (v != 0xFFFFFFFFu && classDerivesFrom(cls[v], "NiGeometryData")) usedGeomData.insert(v);
 			else if (r.chance(0.05) && blocks.size() > 2) {
 				// a wrong-typed but acyclic target (legal on disk; typed lookups must return null)
 				v = isPtr ? r.below(uint32_t(b)) : uint32_t(b + 1 + r.below(uint32_t(blocks.size() - b - 1 ? blocks.size() - b - 1 : 1)));
-				if (v >= blocks.size()) v = 0xFFFFFFFFu;
+				if (v >= blocks.size() || classDerivesFrom(cls[v], "NiGeometryData")) v = 0xFFFFFFFFu;
 			}
 			rf.first->index = v;
 		}
